@@ -1644,7 +1644,7 @@ async fn run_script(out: &mut Out, servers: &mut HashMap<SrvKey, Srv>, sno: usiz
     let addr = srv.addr;
     // how this script's frames reach the server: in one piece, or chopped (by script number: replay-exact
     // for a whole run; a replayed single script is sent unchopped unless it is the same number)
-    let chop: u8 = match sno % 9 { 2 => 1, 4 => 2, 5 => 3, 7 => 5, 8 => 6, 1 if sno % 27 == 1 => 10, _ => 0 };
+    let chop: u8 = match sno % 9 { 2 => 1, 4 => 2, 5 => 3, 7 => 5, 8 => 6, 1 if sno % (if THOROUGH.load(Ordering::Relaxed) { 81 } else { 27 }) == 1 => 10, _ => 0 };
     out.count(&format!("offreader.client_writes.chop_mode_{}", chop));
     let ws = match tokio::time::timeout(WATCHDOG, chop_connect(srv.addr, None, chop, sno as u64)).await {
         Ok(Ok(ws)) => ws,
